@@ -53,6 +53,16 @@ def run(run, env, prop, gen_args=(), key_prefix="model-vs-impl", extra_ties=("Pa
         run.violation("correspondence-broken", "case files could not be evaluated", dict(notes=run.notes), no_input=True)
     for p in stats.get("panic_list", []) or []:
         run.violation("panic", "implementation panicked: " + p, dict(panic=p))
+    for p in stats.get("accessor_mismatches") or []:
+        run.violation("accessor:" + p.split(": ", 1)[-1].split(" = ")[0], "a freshly issued token's accessor does not report what the token says: " + p, dict(mismatch=p))
+    ex = stats.get("extra") or {}
+    if "direct_violations" in ex:
+        for d in ex.get("direct_violations") or []:
+            run.violation("direct:" + d.get("what", "")[:70], "%s: %s" % (d.get("what", ""), d), d)
+        run.obligation("direct oracle (outside the model): " + str(ex.get("direct_oracle", "no direct violation")), not ex.get("direct_violations"))
+        for k, v in ex.items():
+            if k.endswith("_runs"):
+                run.cov[k] = v
     if extra_ties:
         ties = vlib.regen_and_tie(prop, env["bin"], list(extra_ties))
         for n, t in ties.items():
